@@ -701,6 +701,10 @@ HARD_COMPOSITES = [  # (n, a non-trivial factorisation = certificate)
     [4294967291 * 4294967279, [4294967291, 4294967279]], [4294967291 ** 2, [4294967291, 4294967291]],
     [(2 ** 31 - 1) * (2 ** 31 + 11), [2 ** 31 - 1, 2 ** 31 + 11]], [65521 ** 2, [65521, 65521]], [(10 ** 9 + 7) ** 2, [10 ** 9 + 7, 10 ** 9 + 7]],
     [101 * 103, [101, 103]], [193 * 241, [193, 241]], [2 ** 61 - 1 + 2, [3, (2 ** 61 + 1) // 3]],
+    # least strong pseudoprimes of the base sets commonly used for deterministic Miller-Rabin (the exclusive upper bounds of
+    # their validity): {2}, {2,3}, {2,3,5}, {2,7,61}, {31,73}, {2,13,23,1662803} — a bound read as inclusive fails exactly here
+    [2047, [23, 89]], [1373653, [829, 1657]], [25326001, [2251, 11251]], [4759123141, [48781, 97561]], [9080191, [2131, 4261]],
+    [1122004669633, [611557, 1834669]],
 ]
 LARGE_PRIMES = [2 ** 31 - 1, 2 ** 31 + 11, 4294967291, 4294967279, 2 ** 61 - 1, 2 ** 64 - 59, 2 ** 64 - 83, 10 ** 18 + 9, 10 ** 9 + 7, 65521,
                 193, 241, 101, 9377, 28183, 450787, 9780517, 1795265047, 2 ** 89 - 1, 10 ** 20 + 39]
